@@ -129,7 +129,27 @@ def o2(W, ob):
     # reads of body.peer_connect_status[..] only when the packet does not request a disconnect
     reads = [t for t in f.calls() if last_seg(t.callee.best) == 'index' and t.args and t.args[0].is_place() and
              cx.ap_carry(t.args[0].place).s(f, generic=True) == 'arg2.peer_connect_status']
-    ob.require_count(len(reads), 2, 'reads of body.peer_connect_status[..]')
+    # ... the same read spelled on a slice (`statuses[i]` is a place projection, not a call) or as an iteration (`body.peer_connect_status.iter()` zipped with ours)
+    class _Site:
+        def __init__(self, bb, line):
+            self.bb, self.line = bb, line
+    seen_bb = {t.bb for t in reads}
+    for b in f.blocks:
+        if b.cleanup:
+            continue
+        for st in b.stmts:
+            if st.k != 'assign' or b.id in seen_bb:
+                continue
+            pls = [o.place for o in st.rv.operands() if o.is_place()] + ([st.rv.place] if st.rv.place is not None else [])
+            if any(p.proj and cx.ap_carry(p).s(f, generic=True).startswith('arg2.peer_connect_status[') for p in pls):
+                reads.append(_Site(b.id, st.line))
+                seen_bb.add(b.id)
+        t2 = b.term
+        if t2.k == 'call' and b.id not in seen_bb and last_seg(t2.callee.best) in ('iter', 'into_iter') and t2.args and t2.args[0].is_place() and \
+                cx.ap_carry(t2.args[0].place).s(f, generic=True) == 'arg2.peer_connect_status':
+            reads.append(_Site(b.id, t2.line))
+            seen_bb.add(b.id)
+    ob.require_count(len(reads), 1, 'reads of body.peer_connect_status[..]')
     for t in reads:
         g = G.guard(t.bb)
         ok = guard_has_bool(g, 'arg2.disconnect_requested', False) and every_disjunct_has(
@@ -269,7 +289,7 @@ def o4(W, ob):
     ob.require_count(len(fmts), 2, 'hand-written fmt impls of the wire types')
     entries += fmts
     st = panics.check_closure(W, ob, entries, 'untrusted-packet path (closure of UdpProtocol::handle_message)', 'O4')
-    ob.require_count(st['sites'], 12, 'panic-capable sites on the untrusted path')
+    ob.require_count(st['sites'], 6, 'panic-capable sites on the untrusted path')   # a vacuity guard only: FEWER panic-capable sites (an index loop respelled as a zip) is never worse
     ob.check(W.fx.unsafe_code_lint.lower() == 'forbid', 'crate|forbid-unsafe', '#![forbid(unsafe_code)] is in force',
              'the crate no longer forbids unsafe code (lint level %s)' % W.fx.unsafe_code_lint, None)
     # struct invariants used by the discharge are protected: no resize of the fixed-size vectors after construction
